@@ -154,12 +154,12 @@ func execLRUConc(t *testing.T, sc *lruScenario) *Outcome {
 					switch op.Op {
 					case "put":
 						in.Val = vi + 1
-						cache.Put(keyName(op.Key), states[vi])
+						cache.Put(keyName(op.Key, sc.EmptyKey), states[vi])
 						vi++
 					case "putnil":
-						cache.Put(keyName(op.Key), nil)
+						cache.Put(keyName(op.Key, sc.EmptyKey), nil)
 					default:
-						s, ok := cache.Get(keyName(op.Key))
+						s, ok := cache.Get(keyName(op.Key, sc.EmptyKey))
 						out = lruOut{Val: ids[s], OK: ok}
 					}
 					if !sc.NoStamps {
